@@ -238,14 +238,14 @@ func genD(t *rapid.T) hcfg.D {
 	return d
 }
 
-var mutants = []string{"zero-step-crontab", "unknown-top-field", "unknown-schedule-field", "unknown-kubernetes-field", "unknown-validating-field", "onStartup-string", "schedule-object", "allowFailure-string", "bad-crontab", "include-unknown", "include-ambiguous", "selector-operator", "version-v2", "missing-kind", "missing-crontab", "missing-validating-name", "bad-interval", "bad-watch-event", "bad-field-operator", "validating-name-not-qualified", "duplicate-validating-name", "empty-schedule-list", "empty-includes"}
+var mutants = []string{"zero-step-crontab", "unknown-top-field", "unknown-schedule-field", "unknown-kubernetes-field", "unknown-validating-field", "unknown-matchcondition-field", "onStartup-string", "schedule-object", "allowFailure-string", "bad-crontab", "include-unknown", "include-ambiguous", "selector-operator", "version-v2", "missing-kind", "missing-crontab", "missing-validating-name", "bad-interval", "bad-watch-event", "bad-field-operator", "validating-name-not-qualified", "duplicate-validating-name", "empty-schedule-list", "empty-includes"}
 
 func gen(t *rapid.T) Case {
 	c := Case{D: genD(t)}
 	if rapid.Bool().Draw(t, "mutate") {
 		c.Mutant = rapid.SampledFrom(mutants).Draw(t, "mutant")
-		if strings.HasPrefix(c.Mutant, "unknown-") && rapid.Bool().Draw(t, "near") {
-			c.NearKey = nearMiss(t, strings.TrimSuffix(strings.TrimPrefix(c.Mutant, "unknown-"), "-field"))
+		if kind := strings.TrimSuffix(strings.TrimPrefix(c.Mutant, "unknown-"), "-field"); len(knownKeys[kind]) > 0 && rapid.Bool().Draw(t, "near") {
+			c.NearKey = nearMiss(t, kind)
 		}
 	}
 	return c
@@ -306,6 +306,12 @@ func mutate(m map[string]any, mutant string, near string) bool {
 			return false
 		}
 		setUnknown(v, near, "url", "https://x")
+	case "unknown-matchcondition-field":
+		v, ok := first(m, "kubernetesValidating")
+		if !ok {
+			return false
+		}
+		v["matchConditions"] = []any{map[string]any{"name": "c1", "expression": "true", "message": "x"}}
 	case "onStartup-string":
 		m["onStartup"] = "first"
 	case "schedule-object":
@@ -633,9 +639,9 @@ func load(text []byte) (*config.HookConfig, error) {
 	select {
 	case r := <-ch:
 		return r.cfg, r.err
-	case <-time.After(3 * time.Second):
+	case <-time.After(8 * time.Second):
 		hung.Add(1)
-		return nil, fmt.Errorf("HANG: LoadAndValidate did not return within 3s")
+		return nil, fmt.Errorf("HANG: LoadAndValidate did not return within 8s")
 	}
 }
 
